@@ -16,6 +16,13 @@ pub struct EC {
     /// message words are expanded from this seed: ceil(length/32) + surplus words
     pub seed: u64,
     pub surplus: u8,
+    /// message content: 0 pseudo-random; 1 all zero; 2 all ones; 3 a single set bit (position seed mod 32*words); 4 a single clear bit;
+    /// 5 every word drawn from {0, 1, 2, 3, 0x80000000, 0x80000001, 0x7fffffff, 0xfffffffe, 0xffffffff, 1 << k}; 6 words 0, 1, 2, ... (small counters)
+    #[serde(default)]
+    pub content: u8,
+    /// explicit leading message words (used by the byte-level fuzz target); the rest follows `content`
+    #[serde(default)]
+    pub explicit: Vec<u32>,
 }
 
 fn arr16(b: &[u8]) -> [u8; 16] {
@@ -27,7 +34,43 @@ fn arr16(b: &[u8]) -> [u8; 16] {
 impl EC {
     fn words(&self) -> Vec<u32> {
         let l = ((self.length as u64 + 31) / 32) as usize + self.surplus as usize;
-        expand_bytes(self.seed, l * 4).chunks(4).map(|c| u32::from_be_bytes([c[0], c[1], c[2], c[3]])).collect()
+        let rnd: Vec<u32> = expand_bytes(self.seed, l * 4).chunks(4).map(|c| u32::from_be_bytes([c[0], c[1], c[2], c[3]])).collect();
+        let mut out = self.words_by_content(l, rnd);
+        for (o, e) in out.iter_mut().zip(self.explicit.iter()) {
+            *o = *e;
+        }
+        out
+    }
+    fn words_by_content(&self, l: usize, rnd: Vec<u32>) -> Vec<u32> {
+        match self.content % 7 {
+            1 => vec![0; l],
+            2 => vec![!0; l],
+            3 | 4 => {
+                let mut v = vec![if self.content % 7 == 3 { 0u32 } else { !0u32 }; l];
+                if l > 0 {
+                    let bit = (self.seed % (32 * l as u64)) as usize;
+                    v[bit / 32] ^= 0x8000_0000u32 >> (bit % 32);
+                }
+                v
+            }
+            5 => rnd
+                .iter()
+                .map(|r| match r % 12 {
+                    0 => 0,
+                    1 => 1,
+                    2 => 2,
+                    3 => 3,
+                    4 => 0x8000_0000,
+                    5 => 0x8000_0001,
+                    6 => 0x7fff_ffff,
+                    7 => 0xffff_fffe,
+                    8 => 0xffff_ffff,
+                    _ => 1u32 << ((r >> 8) % 32),
+                })
+                .collect(),
+            6 => (0..l as u32).map(|i| i.wrapping_add((self.seed % 3) as u32)).collect(),
+            _ => rnd,
+        }
     }
 }
 
@@ -124,7 +167,7 @@ pub fn run(ctx: &Ctx) {
     ctx.set_rule(
         "cases are (key, COUNT, BEARER, DIRECTION, LENGTH, message seed, surplus words): every LENGTH 0..=600 (EIA3) / 1..=600 (EEA3) x 4 parameter draws \
          covering all 32 bearers and both directions; proptest lengths up to 2^16 (thorough 2^20) bits, COUNT edges, messages with exactly ceil(LENGTH/32) words \
-         and with surplus words, random garbage beyond LENGTH. Oracles: reference EEA3/EIA3 from the specification; EEA3 word count, zero bits beyond LENGTH, \
+         and with surplus words, random garbage beyond LENGTH; message contents pseudo-random and structured (all zero, all ones, a single set or clear bit at every position, words from {0,1,2,3,2^31,2^31+1,2^31-1,2^32-2,2^32-1,2^k}, small counters). Oracles: reference EEA3/EIA3 from the specification; EEA3 word count, zero bits beyond LENGTH, \
          involution on the first LENGTH bits; EIA3 invariance under changes beyond LENGTH and agreement with the reference after a flip inside; official test sets. \
          Non-trivial: LENGTH mod 32 = 0, or DIRECTION differs from the repository test's, or LENGTH > 577.",
     );
@@ -145,6 +188,8 @@ pub fn run(ctx: &Ctx) {
                         length,
                         seed: s ^ 0xcccc,
                         surplus: (d % 3) as u8,
+                        content: 0,
+                        explicit: vec![],
                     });
                 }
             }
@@ -154,11 +199,37 @@ pub fn run(ctx: &Ctx) {
     ctx.exhaustive("eea_lengths_1_600", "EEA3: every LENGTH 1..=600 x 4 parameter draws (all bearers, both directions)", grid(1), check_eea);
     ctx.exhaustive("eia_lengths_0_600", "EIA3: every LENGTH 0..=600 x 4 parameter draws (all bearers, both directions)", grid(0), check_eia);
 
+    let patterned = |lo: u32| {
+        move || {
+            let mut v = Vec::new();
+            for content in 1..7u8 {
+                for length in (lo..=200u32).chain([255, 256, 257, 511, 512, 513, 1024]) {
+                    for d in 0..2u64 {
+                        let s = (content as u64) << 24 | (length as u64) << 8 | d;
+                        v.push(EC { key: Hex(expand_bytes(s ^ 0xaaa1, 16)), count: s as u32 ^ 0x5a5a_5a5a, bearer: (s % 32) as u32, direction: (d % 2) as u32, length, seed: s.wrapping_mul(0x9e37_79b9) ^ d, surplus: (d % 2) as u8, content, explicit: vec![] });
+                    }
+                }
+            }
+            // a single set bit at every position of a 96-bit message (and beyond LENGTH)
+            for bit in 0..128u64 {
+                v.push(EC { key: Hex(expand_bytes(0xaaa2, 16)), count: 7, bearer: 3, direction: 0, length: 96, seed: bit, surplus: 1, content: 3, explicit: vec![] });
+                v.push(EC { key: Hex(expand_bytes(0xaaa3, 16)), count: 9, bearer: 4, direction: 1, length: 96, seed: bit, surplus: 1, content: 4, explicit: vec![] });
+            }
+            v
+        }
+    };
+    ctx.exhaustive("eea_patterned_messages", "EEA3 over structured message contents (all zero, all ones, one set / one clear bit at every position, words from {0,1,2,3,2^31,2^31+1,2^31-1,2^32-2,2^32-1,2^k}, small counters) x every LENGTH 1..=200 and around 256/512/1024", patterned(1), check_eea);
+    ctx.exhaustive("eia_patterned_messages", "EIA3 over the same structured message contents x every LENGTH 0..=200 and around 256/512/1024 (a bit-serial MAC is sensitive to word values, not only to lengths)", patterned(0), check_eia);
+
+    let cold_cases = |lo: u32| move || (0..4u64).map(|i| EC { key: Hex(expand_bytes(0xc18d ^ i, 16)), count: 0x1234_5678 ^ i as u32, bearer: (i * 7 % 32) as u32, direction: (i % 2) as u32, length: lo + 95 * i as u32 + (i as u32 % 2) * 32, seed: i, surplus: (i % 2) as u8, content: [0u8, 5, 3, 6][i as usize], explicit: vec![] }).collect::<Vec<_>>();
+    ctx.cold("cold_start_eea", "EEA3 as the first library operation of a fresh process", cold_cases(1), check_eea);
+    ctx.cold("cold_start_eia", "EIA3 as the first library operation of a fresh process", cold_cases(0), check_eia);
+
     let maxbits = ctx.tier.pick(1u32 << 16, 1u32 << 20);
     let strat = move |lo: u32| {
         move || {
-            (params(), prop_oneof![3 => lo..=700u32, 1 => lo..=maxbits, 1 => (1..=(maxbits / 32)).prop_map(|w| w * 32)], any::<u64>(), 0..3u8)
-                .prop_map(|((key, count, bearer, direction), length, seed, surplus)| EC { key, count, bearer, direction, length, seed, surplus })
+            (params(), prop_oneof![3 => lo..=700u32, 1 => lo..=maxbits, 1 => (1..=(maxbits / 32)).prop_map(|w| w * 32)], any::<u64>(), 0..3u8, prop_oneof![4 => Just(0u8), 3 => 1..7u8])
+                .prop_map(|((key, count, bearer, direction), length, seed, surplus, content)| EC { key, count, bearer, direction, length, seed, surplus, content, explicit: vec![] })
         }
     };
     ctx.generated("eea_generated", "EEA3: proptest parameters and lengths up to 2^16 / 2^20 bits", ctx.tier.pick(30_000, 300_000), strat(1), check_eea);
